@@ -116,6 +116,24 @@ def check(ctx):
         for n in news:
             c = [x for x in walk(n) if x['k'] == 'CXXConstructExpr']
             cols.append(const_of(strip_casts(kids(c[0])[0])) if c and kids(c[0]) else None)
+        if not news:
+            # std::make_unique<...>(colour) inside `for (Color c : {WHITE, BLACK})`, or called twice with constants
+            from rules.common import range_for_consts
+            mk = [n for n, cfid, nm in f.calls() if nm.startswith('std::make_unique')]
+            for n in mk:
+                a0 = strip_casts(kids(n)[1]) if len(kids(n)) > 1 else None
+                cv = const_of(a0) if a0 is not None else None
+                if cv is not None:
+                    cols.append(cv)
+                    continue
+                loop = next((a for a in f.ancestors(n) if a['k'] == 'CXXForRangeStmt'), None)
+                rf = range_for_consts(loop) if loop is not None else None
+                if rf is not None and a0 is not None and (a0.get('ref') or {}).get('id') == rf[0]['id']:
+                    cols.extend(rf[1])
+                else:
+                    raise AnalysisBroken('C13: add<%s> registers its evaluators in a form the rule does not know' % short(f.targs))
+            if not mk:
+                raise AnalysisBroken('C13: add<%s> registers its evaluators in a form the rule does not know' % short(f.targs))
         ctx.ob('C13.R4.both-colours', 'add<%s>' % short(f.targs), cols == [0, 1],
                'the evaluator is registered for WHITE and for BLACK as strong side, next to each other (%s)' % cols, site=f.loc(), sample=False)
     init = p.fn('engine::endgame::init')
@@ -124,6 +142,9 @@ def check(ctx):
            'every evaluator type is registered exactly once (%d)' % len(regd), site=init.loc())
     disp = p.fn('engine::endgame::score')
     loops = [n for n in disp.all_nodes() if n['k'] == 'CXXForRangeStmt']
+    if not loops:
+        raise AnalysisBroken('C13: endgame::score does not walk its evaluators in a range-for (std::find_if or an index loop?); the rule '
+                             'reads "first that applies" from that loop only')
     okd = len(loops) == 1
     if okd:
         rets = [n for n in walk(loops[0]) if n['k'] == 'ReturnStmt']
